@@ -15,6 +15,7 @@
 //!             execution is logged and judged by TLC.
 //!   census    developer aid: prints per subject how many frames came back with another digest (not used
 //!             by the check)
+//!   witness   developer aid: prints what the small witnesses quoted in known_findings.json do
 use serde_json::{json, Map, Value};
 use std::sync::Arc;
 use std::time::{Duration, Instant};
@@ -526,6 +527,66 @@ fn drive_trait(a: &Args, t: &mut Tracer, acc: &mut Acc, fam: &str) {
                 acc.add(&subject, s);
             }
         }
+    }
+}
+
+// ---------------------------------------------------------------- family: CompressorFactory::select_best
+
+/// the selector's decision space: requirements x payload; the algorithm it names is created through the
+/// factory (trained on the payload, as AdaptiveCompressor::train does) and must round-trip the payload
+fn drive_selector(a: &Args, t: &mut Tracer, acc: &mut Acc) {
+    let reqs: Vec<(&str, PerformanceRequirements)> = vec![
+        ("balanced", PerformanceRequirements::default()),
+        ("speed", PerformanceRequirements { speed_vs_quality: 0.0, ..Default::default() }),
+        ("quality", PerformanceRequirements { speed_vs_quality: 1.0, max_latency: Duration::from_secs(60), max_memory: usize::MAX / 4, ..Default::default() }),
+        ("tiny_memory", PerformanceRequirements { max_memory: 1024, speed_vs_quality: 1.0, ..Default::default() }),
+        ("tiny_latency", PerformanceRequirements { max_latency: Duration::from_nanos(100), speed_vs_quality: 1.0, ..Default::default() }),
+    ];
+    let maxlen = if a.thorough() { 4 << 20 } else { 65536 };
+    let ps = payloads(a, maxlen, &[]);
+    for (rn, req) in &reqs {
+        let subject = "selector:select_best".to_string();
+        if !sel(a, &format!("selector:select_best-{rn}")) {
+            continue;
+        }
+        let mut run = Run::new(t, &subject, "selector", rn, "self", json!({}));
+        run.create(true, "");
+        for p in &ps {
+            let alg = match guard(|| CompressorFactory::select_best(req, &p.data)) {
+                Ok(alg) => alg,
+                Err(m) => {
+                    run.panic("select_best", 0, &p.cls, m);
+                    break;
+                }
+            };
+            let algo = format!("{alg:?}");
+            // training the dictionary member of Hybrid on a large repetitive payload is cubic (see drive_trait)
+            if alg == Algorithm::Hybrid && p.data.len() > if a.thorough() { 4096 } else { 1000 } {
+                continue;
+            }
+            match guard(|| es(CompressorFactory::create(alg, Some(&p.data[..])))) {
+                Err(m) => {
+                    run.panic("create", 0, &p.cls, m);
+                    break;
+                }
+                Ok(Err(m)) => {
+                    run.compressed("selected", p, Ok(Err(m)), json!({"algo": algo}));
+                }
+                Ok(Ok(c)) => {
+                    let r = guard(|| es(c.compress(&p.data)));
+                    if let Some(id) = run.compressed("selected", p, r, json!({"algo": algo})) {
+                        let f = run.frame(id);
+                        let r = guard(|| es(c.decompress(&f)));
+                        run.decompressed("selected", id, &p.cls, r);
+                    }
+                    if run.dead {
+                        std::mem::forget(c);
+                        break;
+                    }
+                }
+            }
+        }
+        acc.add(&subject, run.summary());
     }
 }
 
@@ -1160,20 +1221,29 @@ fn sanitize_file(p: &std::path::Path) {
 
 fn child(a: &Args) {
     let g = a.subject.clone().expect("--subject <group or subject>");
-    let fam = g.split(':').next().unwrap_or("").to_string();
+    let mut fams: Vec<String> = vec![];
+    for p in g.split(',') {
+        let f = p.split(':').next().unwrap_or("").to_string();
+        if !fams.contains(&f) {
+            fams.push(f);
+        }
+    }
     let mut t = Tracer::new(&a.out, &format!("c02-{}", stem_of(&g)));
     t.max_events = 4000;
     let mut acc = Acc { subjects: Map::new() };
-    match fam.as_str() {
-        "factory" | "direct" => drive_trait(a, &mut t, &mut acc, &fam),
-        "adaptive" => drive_adaptive(a, &mut t, &mut acc),
-        "realtime" => drive_realtime(a, &mut t, &mut acc),
-        "simdlz77" => drive_simdlz77(a, &mut t, &mut acc),
-        "pazip" => drive_pazip(a, &mut t, &mut acc),
-        "fse" => drive_fse(a, &mut t, &mut acc),
-        _ => {
-            eprintln!("c02: unknown group {g}");
-            std::process::exit(2)
+    for fam in &fams {
+        match fam.as_str() {
+            "factory" | "direct" => drive_trait(a, &mut t, &mut acc, fam),
+            "adaptive" => drive_adaptive(a, &mut t, &mut acc),
+            "selector" => drive_selector(a, &mut t, &mut acc),
+            "realtime" => drive_realtime(a, &mut t, &mut acc),
+            "simdlz77" => drive_simdlz77(a, &mut t, &mut acc),
+            "pazip" => drive_pazip(a, &mut t, &mut acc),
+            "fse" => drive_fse(a, &mut t, &mut acc),
+            _ => {
+                eprintln!("c02: unknown group {g}");
+                std::process::exit(2)
+            }
         }
     }
     t.close();
@@ -1208,7 +1278,7 @@ fn units(a: &Args) -> Vec<String> {
     for preset in ["default", "fast", "high", "balanced", "realtime", "reference", "reference_hash"] {
         u.push(format!("pazip:{preset}"));
     }
-    u.push("fse".to_string());
+    u.push("fse,selector".to_string());
     // keep the units the caller's filter touches: the unit is inside a pattern, or a pattern is inside the unit
     let inside = |x: &str, p: &str| x == p || x.starts_with(&format!("{p}:")) || x.starts_with(&format!("{p}@")) || x.starts_with(&format!("{p}-"));
     match &a.subject {
@@ -1600,9 +1670,6 @@ fn witness(_a: &Args) {
     let (buf, _) = encode_matches(&ms).unwrap();
     println!("Far3Long(1, 2^30+32802) -> {:?}", decode_matches(&buf).map_err(|e| e.to_string()));
     // KF13
-    for x in [&b"ab"[..]] {
-        let _ = x;
-    }
     let mut r = Rng::new(1);
     for n in [100usize, 128, 200, 256, 300, 512, 1000] {
         let x = r.bytes(n);
